@@ -8,6 +8,7 @@ package codec
 import (
 	"bufio"
 	"bytes"
+	"context"
 	"encoding/binary"
 	"encoding/hex"
 	"fmt"
@@ -15,6 +16,7 @@ import (
 	"math/rand"
 	"net"
 	"os"
+	"os/exec"
 	"runtime"
 	"runtime/debug"
 	"runtime/metrics"
@@ -39,8 +41,15 @@ const (
 	watchdog  = 2 * time.Second  // a handler call must return within this (wall clock) ...
 	grace     = 40 * time.Second // ... unless the process was starved of CPU: then it must return within
 	//                                   the grace period having used < watchdog of CPU time itself
-	maxAllocBytes = 256 << 20
-	huge          = 1 << 40
+	maxAllocBytes = 256 << 20 // heap a handler call may allocate ...
+	// A stream has no size limit of its own (the node bounds it by streamTimeout), and work linear in the
+	// number of bytes received is neither a crash nor a hang: for stream inputs the bounds grow linearly
+	// with the input (measured on ugorji v1.3.1: <= 10 us CPU and <= 250 B heap per input byte, worst
+	// case an array of one-byte elements; constants below have <= 2x headroom).  Datagram inputs
+	// (<= maxPacketSize) stay on the fixed bounds.
+	cpuPerStreamByte   = 20 * time.Microsecond
+	allocPerStreamByte = 512
+	huge               = 1 << 40
 )
 
 func init() { debug.SetMemoryLimit(3 << 30) }
@@ -465,10 +474,9 @@ func threadCPU() time.Duration {
 	return time.Duration(ru.Utime.Nano() + ru.Stime.Nano())
 }
 
-// guarded runs f under the watchdog with recover; returns (result, finished, stuck-at).  A call that
-// overruns the 2 s wall-clock watchdog only because the machine is overloaded (it returns during the
-// grace period and the handler's own thread used less than 2 s of CPU) is counted as slow, not hung.
-func guarded(f func() error) (callRes, bool, string) {
+// guarded runs f with recover.  status: 0 = returned within `budget` (wall clock); 1 = returned late
+// (within the grace period); 2 = never returned.
+func guarded(budget time.Duration, f func() error) (callRes, int, string) {
 	ch := make(chan callRes, 1)
 	go func() {
 		defer func() {
@@ -482,25 +490,21 @@ func guarded(f func() error) (callRes, bool, string) {
 		err := f()
 		ch <- callRes{err: err, cpu: threadCPU() - c0}
 	}()
-	t := time.NewTimer(watchdog)
+	t := time.NewTimer(budget)
 	defer t.Stop()
 	select {
 	case r := <-ch:
-		return r, true, ""
+		return r, 0, ""
 	case <-t.C:
 	}
 	where := stuckAt()
-	t2 := time.NewTimer(grace)
+	t2 := time.NewTimer(grace + 2*budget)
 	defer t2.Stop()
 	select {
 	case r := <-ch:
-		if r.cpu < watchdog {
-			r.slow = true
-			return r, true, ""
-		}
-		return callRes{}, false, fmt.Sprintf("returned late after using %v of CPU itself; at the watchdog it was at %s", r.cpu, where)
+		return r, 1, where
 	case <-t2.C:
-		return callRes{}, false, where
+		return callRes{}, 2, where
 	}
 }
 
@@ -538,16 +542,51 @@ func shortStack(s string) string {
 }
 
 // hostile feeds one input to a real handler and evaluates the C13 robustness clauses.
-func (e *codecEngine) hostile(o *Out, kind string, in []byte, call func() error) {
+type cost struct {
+	cpu   time.Duration
+	alloc uint64
+	ok    bool
+}
+
+func (e *codecEngine) hostile(o *Out, kind string, in []byte, call func(en *codecEngine) error) (c cost) {
 	if e.poisoned {
 		o.Count(kind + ":skipped-after-hang")
 		return
+	}
+	budget, allocBudget := watchdog, uint64(maxAllocBytes)
+	if kind != "pkt" {
+		budget += time.Duration(len(in)) * cpuPerStreamByte
+		allocBudget += uint64(len(in)) * allocPerStreamByte
 	}
 	before := showNodeState(e.st.LocalNode())
 	e.pc.take()
 	a0 := heapAllocs()
 	t0 := time.Now()
-	res, finished, where := guarded(call)
+	res, status, where := guarded(budget, func() error { return call(e) })
+	finished := status != 2
+	if finished && (status == 1 || res.cpu >= budget) {
+		// Over the wall-clock budget, or the handler's thread was charged more CPU than the budget.  On an
+		// overloaded (or virtualised: steal time) machine both happen to cheap calls, so the same input is
+		// re-measured on scratch nodes: it is a CPU-bound hang only if every measurement is over budget.
+		best := res.cpu
+		for i := 0; i < 2 && best >= budget; i++ {
+			scratch := &codecEngine{}
+			scratch.setup(e.max, nil, nil)
+			r2, st2, _ := guarded(budget, func() error { return call(scratch) })
+			if st2 == 2 {
+				break
+			}
+			if r2.cpu < best {
+				best = r2.cpu
+			}
+		}
+		if best >= budget {
+			finished = false
+			where = fmt.Sprintf("returned late after using %v of CPU itself (re-measured); at the watchdog it was at %s", best, where)
+		} else {
+			res.slow = true
+		}
+	}
 	if ms := time.Since(t0).Milliseconds(); ms >= 100 {
 		o.Count(kind + ":took>=100ms")
 		if os.Getenv("VERIF_CODEC_DEBUG") != "" {
@@ -564,9 +603,10 @@ func (e *codecEngine) hostile(o *Out, kind string, in []byte, call func() error)
 	}
 	if !finished {
 		e.poisoned = true
-		o.Fail("C13", "hang", tag()+fmt.Sprintf(" handler did not return within %v; stuck at %s", watchdog, where))
+		o.Fail("C13", "hang", tag()+fmt.Sprintf(" handler did not return within %v; stuck at %s", budget, where))
 		return
 	}
+	c = cost{cpu: res.cpu, alloc: a1 - a0, ok: true}
 	if res.slow {
 		o.Count(kind + ":slow-under-load")
 	}
@@ -586,14 +626,14 @@ func (e *codecEngine) hostile(o *Out, kind string, in []byte, call func() error)
 	} else {
 		o.Count(kind + ":applied")
 	}
-	if a1 > a0 && a1-a0 > maxAllocBytes {
-		o.Fail("C13", "memory", tag()+fmt.Sprintf(" allocated %d bytes handling a %d byte input", a1-a0, len(in)))
+	if a1 > a0 && a1-a0 > allocBudget {
+		o.Fail("C13", "memory", tag()+fmt.Sprintf(" allocated %d bytes handling a %d byte input (bound %d)", a1-a0, len(in), allocBudget))
 		runtime.GC()
 	}
 	// the mutex must be free again (a panic while holding it would wedge the node)
 	after := ""
-	_, fin2, _ := guarded(func() error { after = showNodeState(e.st.LocalNode()); return nil })
-	if !fin2 {
+	_, st3, _ := guarded(watchdog, func() error { after = showNodeState(e.st.LocalNode()); return nil })
+	if st3 == 2 {
 		e.poisoned = true
 		o.Fail("C13", "hang", tag()+" cluster state mutex still held after the handler returned")
 		return
@@ -615,6 +655,141 @@ func (e *codecEngine) hostile(o *Out, kind string, in []byte, call func() error)
 		if derr != nil {
 			o.Fail("C13", "reply-does-not-decode", tag()+" reply="+hexPkt(p)+": "+derr.Error())
 		}
+	}
+	return c
+}
+
+// scaleFamily builds the stream input of size parameter n for the linearity probe.
+func scaleFamily(fam string, n int) []byte {
+	m := &mp{}
+	leaveHdr := func() {
+		m.raw(g.VMessageTypeLeave, g.VSupportedVersion).mapHdr(2).str("node_id").str("x").str("addr").str("")
+	}
+	joinHdr := func() {
+		m.raw(g.VMessageTypeJoin, g.VSupportedVersion).mapHdr(2).str("node_id").str("x").str("addr").str("")
+	}
+	switch fam {
+	case "nils": // delta = array of n nils
+		leaveHdr()
+		m.arrHdr(n)
+		m.b = append(m.b, bytes.Repeat([]byte{0xc0}, n)...)
+	case "maps": // delta = array of n empty maps
+		leaveHdr()
+		m.arrHdr(n)
+		m.b = append(m.b, bytes.Repeat([]byte{0x80}, n)...)
+	case "nest": // known key given an n-deep map
+		m.raw(g.VMessageTypeLeave, g.VSupportedVersion).mapHdr(2).str("node_id")
+		m.b = append(m.b, bytes.Repeat([]byte{0x81, 0xa1, 'k'}, n)...)
+	case "entries": // one node with n valid entries (applied)
+		leaveHdr()
+		m.arrHdr(1).mapHdr(3).str("id").str("n").str("addr").str("").str("entries").arrHdr(n)
+		for i := 0; i < n; i++ {
+			m.entry(hEntry{k: "k" + strconv.Itoa(i), v: "v", ver: uint64(i + 1)})
+		}
+	case "nodes": // n valid nodes with one entry each (applied, watcher notified)
+		leaveHdr()
+		m.arrHdr(n)
+		for i := 0; i < n; i++ {
+			m.mapHdr(3).str("id").str("n" + strconv.Itoa(i)).str("addr").str("10.0.0.1:1").str("entries").arrHdr(1)
+			m.entry(hEntry{k: "proxy_addr", v: "10.0.0.1:2", ver: 1})
+		}
+	case "digest": // join with a digest of n unknown nodes
+		joinHdr()
+		m.arrHdr(0)
+		m.arrHdr(n)
+		for i := 0; i < n; i++ {
+			m.digEntry(hDig{id: "d" + strconv.Itoa(i), addr: "10.0.0.1:1", ver: uint64(i)})
+		}
+	case "compact": // n entries then a compaction marker dropping them all
+		leaveHdr()
+		m.arrHdr(1).mapHdr(3).str("id").str("n").str("addr").str("").str("entries").arrHdr(n + 1)
+		for i := 0; i < n; i++ {
+			m.entry(hEntry{k: "k" + strconv.Itoa(i), v: "v", ver: uint64(i + 1)})
+		}
+		m.entry(hEntry{k: "_internal:compact", v: strconv.Itoa(n), ver: uint64(n + 1), internal: true})
+	default:
+		panic("unknown scale family " + fam)
+	}
+	return m.b
+}
+
+// scale: the cost of handling a stream must grow (at most) linearly: doubling the input may not
+// more than triple CPU time or allocation (measured on a fresh node each; re-measured once before failing).
+func (e *codecEngine) scale(o *Out, fam string, n int) {
+	measure := func(k int) cost {
+		e.Reset()
+		in := scaleFamily(fam, k)
+		return e.hostile(o, "conn", in, func(en *codecEngine) error { return g.VHandleConn(en.sl, &memConn{r: bytes.NewReader(in)}) })
+	}
+	const floor = 30 * time.Millisecond
+	for attempt := 0; ; attempt++ {
+		c1, c2 := measure(n), measure(2*n)
+		if !c1.ok || !c2.ok {
+			return
+		}
+		o.Count("scale:" + fam)
+		if os.Getenv("VERIF_CODEC_DEBUG") != "" {
+			fmt.Fprintf(os.Stderr, "scale %s n=%d cpu %v -> %v alloc %d -> %d\n", fam, n, c1.cpu, c2.cpu, c1.alloc, c2.alloc)
+		}
+		cpuBad := c2.cpu > 3*c1.cpu+floor
+		allocBad := c2.alloc > 3*c1.alloc+(8<<20)
+		if !cpuBad && !allocBad {
+			return
+		}
+		if attempt >= 2 {
+			o.Fail("C13", "superlinear", fmt.Sprintf("scale %s n=%d: cpu %v -> %v, alloc %d -> %d when the input doubles (%d -> %d bytes)",
+				fam, n, c1.cpu, c2.cpu, c1.alloc, c2.alloc, len(scaleFamily(fam, n)), len(scaleFamily(fam, 2*n))))
+			return
+		}
+	}
+}
+
+// inChild runs one hostile op in a fresh child process and re-reports its oracle lines.
+func (e *codecEngine) inChild(o *Out, opText string) {
+	exe, err := os.Executable()
+	if err != nil {
+		panic(err)
+	}
+	ctx, cancel := context.WithTimeout(context.Background(), grace+20*time.Second)
+	defer cancel()
+	cmd := exec.CommandContext(ctx, exe, "run")
+	cmd.Env = append(os.Environ(), "VERIF_CODEC_CHILD=1")
+	cmd.Stdin = strings.NewReader("case child\n" + opText + "\n")
+	var stdout, stderr bytes.Buffer
+	cmd.Stdout, cmd.Stderr = &stdout, &stderr
+	runErr := cmd.Run()
+	o.Count("rep:child-calls")
+	for _, l := range strings.Split(stdout.String(), "\n") {
+		if strings.HasPrefix(l, "ORACLE FAIL C13 ") {
+			f := strings.SplitN(strings.TrimPrefix(l, "ORACLE FAIL C13 "), " ", 3)
+			detail := opText
+			if len(f) == 3 {
+				if i := strings.Index(f[2], "handler did not return"); i >= 0 {
+					detail += " " + f[2][i:]
+				} else if i := strings.Index(f[2], " panic: "); i >= 0 {
+					detail += f[2][i:]
+				} else if i := strings.Index(f[2], " before="); i >= 0 {
+					detail += f[2][i:]
+				}
+			}
+			if len(detail) > 1500 {
+				detail = detail[:1500]
+			}
+			o.Fail("C13", f[0], detail)
+		}
+	}
+	if ctx.Err() != nil {
+		o.Fail("C13", "hang", opText+" child process killed after "+(grace+20*time.Second).String())
+		return
+	}
+	if runErr != nil {
+		msg := ""
+		for _, l := range strings.Split(stderr.String(), "\n") {
+			if strings.HasPrefix(l, "fatal error:") || strings.HasPrefix(l, "runtime: goroutine stack exceeds") || strings.HasPrefix(l, "panic:") {
+				msg += l + "; "
+			}
+		}
+		o.Fail("C13", "process-crash", opText+" the process running the handler died: "+runErr.Error()+": "+msg)
 	}
 }
 
@@ -678,19 +853,49 @@ func (e *codecEngine) Step(ws []string, o *Out) string {
 		e.setup(Atoi(ws[1]), kvs, nil)
 		return "skip"
 	case "pkt":
+		// packetListener.Serve reads a datagram into a maxPacketSize buffer: longer datagrams arrive truncated
 		in := unhexPkt(ws[1])
-		e.hostile(o, "pkt", in, func() error { return g.VHandlePacket(e.pl, append([]byte(nil), in...)) })
+		if len(in) > e.max {
+			in = in[:e.max]
+			o.Count("pkt:truncated-to-read-buffer")
+		}
+		e.hostile(o, "pkt", in, func(en *codecEngine) error { return g.VHandlePacket(en.pl, append([]byte(nil), in...)) })
 		return "skip"
 	case "conn":
 		in := unhexPkt(ws[1])
-		e.hostile(o, "conn", in, func() error {
-			return g.VHandleConn(e.sl, &memConn{r: bytes.NewReader(in)})
+		e.hostile(o, "conn", in, func(en *codecEngine) error {
+			return g.VHandleConn(en.sl, &memConn{r: bytes.NewReader(in)})
 		})
+		return "skip"
+	case "scale":
+		// scale <family> <n>: linearity probe for the stream handler (implementation only)
+		e.scale(o, ws[1], Atoi(ws[2]))
+		e.Reset()
+		return "skip"
+	case "rep":
+		// rep <pkt|conn|pipe> <prefix> <unit> <count> <suffix>: input = prefix + unit*count + suffix, fed to
+		// the real handler in a CHILD process (same binary), so that an unrecoverable runtime fatal error
+		// (stack overflow, out of memory) is reported as an oracle failure instead of killing the harness.
+		if os.Getenv("VERIF_CODEC_CHILD") == "" {
+			e.inChild(o, strings.Join(ws, " "))
+			return "skip"
+		}
+		in := append(unhexPkt(ws[2]), bytes.Repeat(unhexPkt(ws[3]), Atoi(ws[4]))...)
+		in = append(in, unhexPkt(ws[5])...)
+		switch ws[1] {
+		case "pkt":
+			if len(in) > e.max {
+				in = in[:e.max]
+			}
+			e.hostile(o, "pkt", in, func(en *codecEngine) error { return g.VHandlePacket(en.pl, append([]byte(nil), in...)) })
+		default:
+			e.hostile(o, "conn", in, func(en *codecEngine) error { return g.VHandleConn(en.sl, &memConn{r: bytes.NewReader(in)}) })
+		}
 		return "skip"
 	case "pipe":
 		// the same through net.Pipe: the peer writes the bytes and closes
 		in := unhexPkt(ws[1])
-		e.hostile(o, "pipe", in, func() error {
+		e.hostile(o, "pipe", in, func(en *codecEngine) error {
 			c1, c2 := net.Pipe()
 			go func() {
 				_ = c2.SetDeadline(time.Now().Add(watchdog))
@@ -698,7 +903,7 @@ func (e *codecEngine) Step(ws []string, o *Out) string {
 				_, _ = c2.Write(in)
 				_ = c2.Close()
 			}()
-			return g.VHandleConn(e.sl, c1)
+			return g.VHandleConn(en.sl, c1)
 		})
 		return "skip"
 	}
@@ -1377,6 +1582,21 @@ func randomBytes(r *rand.Rand, stream bool) []byte {
 	return b
 }
 
+// positions for `rep`: [kind, prefix hex]; the repeated unit follows the prefix
+var repPrefixes = [][2]string{
+	{"conn", "0400"}, {"conn", "0300"}, {"conn", "040082a76e6f64655f6964"}, {"conn", "040082"},
+	{"conn", "040082a76e6f64655f6964a178a461646472a0"},                                             // the delta value
+	{"conn", "040082a76e6f64655f6964a178a461646472a091"},                                           // delta[0]
+	{"conn", "040082a76e6f64655f6964a178a461646472a09183a26964"},                                   // delta[0].id
+	{"conn", "040082a76e6f64655f6964a178a461646472a09183a26964a16ea461646472a0a7656e7472696573"},   // delta[0].entries
+	{"conn", "040082a76e6f64655f6964a178a461646472a09183a26964a16ea461646472a0a7656e747269657391"}, // entries[0]
+	{"conn", "030082a76e6f64655f6964a178a461646472a090"},                                           // the join digest value
+	{"conn", "040082a76e6f64655f6964a178a461646472a0dd00030d40"},                                   // delta = array32(200000) of ...
+	{"conn", "030082a76e6f64655f6964a178a461646472a090dd00030d40"},                                 // digest = array32(200000) of ...
+	{"pkt", "0200"}, {"pkt", "0100"}, {"pkt", "020083a76e6f64655f6964"}, {"pkt", "020083a76e6f64655f6964a178a461646472a0a7656e7472696573"},
+}
+var repUnits = []string{"81a16b", "91", "81", "92", "82", "c0", "80", "90", "d40100", "c7010100", "c40100", "a0", "00", "ff"}
+
 func (e *codecEngine) genHostile(r *rand.Rand, nops int, w *bufio.Writer) {
 	max := Pick(r, []int{1400, 1400, 512, 200, 100, 64, 40, 65535})
 	fmt.Fprintf(w, "local %d", max)
@@ -1388,6 +1608,16 @@ func (e *codecEngine) genHostile(r *rand.Rand, nops int, w *bufio.Writer) {
 	emit := func(op string, b []byte) {
 		fmt.Fprintf(w, "%s %s\n", op, hexPkt(b))
 		emitted++
+	}
+	// occasionally: a repeated-unit input in a child process (deep nesting / long arrays at a random
+	// position) and a linearity probe
+	if r.Intn(16) == 0 {
+		pre := Pick(r, repPrefixes)
+		cnt := Pick(r, []int{1000, 30000, 100000})
+		fmt.Fprintf(w, "rep %s %s %s %d -\n", pre[0], pre[1], Pick(r, repUnits), cnt)
+	}
+	if r.Intn(32) == 0 {
+		fmt.Fprintf(w, "scale %s %d\n", Pick(r, []string{"nils", "maps", "nest", "entries", "nodes", "digest", "compact"}), 1000+r.Intn(2000))
 	}
 	for emitted < nops {
 		stream := r.Intn(3) == 0
